@@ -108,6 +108,15 @@ func Load(o LoadOpts) (*Program, error) {
 	return p, nil
 }
 
+// ReadFile reads a file of the subject, honouring the overlay (used by the
+// positive controls of the thorough tier).
+func (p *Program) ReadFile(abs string) ([]byte, error) {
+	if b, ok := p.Overlay[abs]; ok {
+		return b, nil
+	}
+	return os.ReadFile(abs)
+}
+
 // Pkg returns the module package with the given path relative to the module
 // root ("" for the root package).
 func (p *Program) Pkg(rel string) *packages.Package {
